@@ -1,9 +1,171 @@
-import SpVerif.Model.Frames
+import SpVerif.Lemmas.CxIndex
+/-!
+# C04 — .cx selects exactly the intersecting rows, with or without a spatial index
+
+Theorems about the `.cx` model of `Frames` (`_BaseCoordinateIndexer._get_bounds`, `_CoordinateIndexer._perform_get_item`).
+The mask path is, by definition, the rows whose element intersects the box, in original order; the indexed path is the sorted
+union of the rows the R-tree reports as covered and the overlapping rows that pass the exact test.  `C04_index_irrelevant`:
+for every tree holding the array's valid bounds rows (any page size, any arrangement - the Hilbert order for any `p`) and every
+box of positive width and height the two paths select the same rows.  It rests on C03 (index exact), on
+`elemIB_of_inside` (a covered row intersects: the projection shortcut of the kernels) and `elemIB_overlaps` (an intersecting
+row has bounds that overlap the box).  Series / DataFrame wrappers select the same positions through `iloc` / a boolean mask.
+-/
 namespace SpVerif
-open Geom Frames
+open Geom Frames RTree Dask
+
 /-- reversed slice ends are swapped: the box `.cx` uses is always oriented -/
 theorem C04_getbounds_oriented (a b c d : Option Int) (t : Box) :
     (getBounds a b c d t).x0 ≤ (getBounds a b c d t).x1 ∧ (getBounds a b c d t).y0 ≤ (getBounds a b c d t).y1 := by
   simp only [getBounds]
   constructor <;> split <;> omega
+
+/-- present slice ends are used as given (up to the swap), omitted ones are the data's total extent on that side -/
+theorem C04_getbounds_ends (x0 x1 y0 y1 : Int) (t : Box) (hx : x0 ≤ x1) (hy : y0 ≤ y1) :
+    getBounds (some x0) (some x1) (some y0) (some y1) t = ⟨x0, y0, x1, y1⟩ ∧
+    getBounds (some x1) (some x0) (some y1) (some y0) t = ⟨x0, y0, x1, y1⟩ ∧
+    getBounds none none none none t = orientBox t := by
+  refine ⟨?_, ?_, ?_⟩
+  · simp only [getBounds, Option.getD_some]
+    congr 1 <;> split <;> omega
+  · simp only [getBounds, Option.getD_some]
+    congr 1 <;> split <;> omega
+  · simp [getBounds, orientBox]
+
+/-- **without an index**: exactly the rows whose geometry intersects the box, in their original order -/
+theorem C04_cx_exact (b : Box) (els : List (Option Elem)) :
+    cxMask b els = (List.range els.length).filter (fun i => elemIB b (els.getD i none)) :=
+  cxMask_eq_filter b els
+
+theorem orientBox_id {b : Box} (hx : b.x0 ≤ b.x1) (hy : b.y0 ≤ b.y1) : orientBox b = b := by
+  cases b with
+  | mk x0 y0 x1 y1 =>
+    simp only at hx hy
+    simp only [orientBox, Box.mk.injEq]
+    refine ⟨?_, ?_, ?_, ?_⟩ <;> split <;> omega
+
+/-- **the spatial index is irrelevant**: for every tree over the array's bounds rows and every box of positive width and height
+the indexed path selects exactly the rows of the mask path -/
+theorem C04_index_irrelevant (t : PTree) (b : Box) (els : List (Option Elem))
+    (hrows : t.rows.Perm (validRows els)) (hx : b.x0 < b.x1) (hy : b.y0 < b.y1) :
+    cxFromTree t b els = cxMask b els := by
+  have hor : orientBox b = b := orientBox_id (by omega) (by omega)
+  have hpos : zeroAreaBox (orientBox b) = false := by
+    rw [hor]; simp [zeroAreaBox]; omega
+  have hwf : ∀ r ∈ t.rows, WF 2 r.2 := fun r hr => validRows_wf els r (hrows.subset hr)
+  have hkeys : (t.rows.map (·.1)).Nodup := (List.Perm.map _ hrows).nodup_iff.mpr (validRows_keys_nodup els)
+  obtain ⟨hc, ho⟩ := C03_covers_overlaps_exact 2 t (nbox b) hwf
+  -- characterise the rows of the tree
+  have hmem : ∀ i bx, (i, bx) ∈ t.rows ↔ ∃ e, els[i]? = some e ∧ elemBounds e = some bx := by
+    intro i bx
+    rw [← mem_validRows]
+    exact ⟨fun h => hrows.subset h, fun h => hrows.symm.subset h⟩
+  set ib := fun i => elemIB b (els.getD i none) with hib
+  set L := (coversOverlaps 2 t (nbox b)).1 ++ (coversOverlaps 2 t (nbox b)).2.filter ib with hL
+  -- membership
+  have hLmem : ∀ i, i ∈ L ↔ (i < els.length ∧ ib i = true) := by
+    intro i
+    simp only [hL, List.mem_append, List.mem_filter]
+    constructor
+    · rintro (h1 | ⟨h2, hi⟩)
+      · have := hc.subset h1
+        simp only [List.mem_map, List.mem_filter] at this
+        obtain ⟨⟨i', bx⟩, ⟨hr, hins⟩, rfl⟩ := this
+        obtain ⟨e, he, hbx⟩ := (hmem i' bx).mp hr
+        have hlt : i' < els.length := by
+          rcases Nat.lt_or_ge i' els.length with h | h
+          · exact h
+          · rw [List.getElem?_eq_none h] at he; cases he
+        refine ⟨hlt, ?_⟩
+        cases e with
+        | none => simp [elemBounds] at hbx
+        | some e =>
+          simp only [elemBounds, Option.map_eq_some_iff] at hbx
+          obtain ⟨bb, hbb, rfl⟩ := hbx
+          have hsub : BoxSub bb b := (inside_nbox b bb).mp hins
+          have := elemIB_of_inside b e bb hbb hpos (by rw [hor]; exact hsub)
+          simp only [hib, List.getD_eq_getElem?_getD, he, Option.getD_some]
+          exact this
+      · have := ho.subset h2
+        simp only [List.mem_map, List.mem_filter] at this
+        obtain ⟨⟨i', bx⟩, ⟨hr, _⟩, rfl⟩ := this
+        obtain ⟨e, he, _⟩ := (hmem i' bx).mp hr
+        have hlt : i' < els.length := by
+          rcases Nat.lt_or_ge i' els.length with h | h
+          · exact h
+          · rw [List.getElem?_eq_none h] at he; cases he
+        exact ⟨hlt, hi⟩
+    · rintro ⟨hlt, hi⟩
+      have hget : els[i]? = some (els.getD i none) := by
+        simp [List.getD_eq_getElem?_getD, List.getElem?_eq_getElem hlt]
+      cases hel : els.getD i none with
+      | none =>
+        have : ib i = false := by simp only [hib, hel]; rfl
+        rw [this] at hi; cases hi
+      | some e =>
+        simp only [hib, hel] at hi
+        obtain ⟨bb, hbb, hout⟩ := elemIB_overlaps b e hi
+        rw [hor] at hout
+        have hrow : (i, nbox bb) ∈ t.rows := (hmem i (nbox bb)).mpr ⟨some e, by rw [hget, hel], elemBounds_eq e bb hbb⟩
+        have hno : outside 2 (nbox b) (nbox bb) = false := by rw [outside_nbox]; exact hout
+        cases hins : inside 2 (nbox b) (nbox bb) with
+        | true =>
+          left
+          apply hc.symm.subset
+          simp only [List.mem_map, List.mem_filter]
+          exact ⟨(i, nbox bb), ⟨hrow, hins⟩, rfl⟩
+        | false =>
+          right
+          refine ⟨?_, by simp only [hib, hel]; exact hi⟩
+          apply ho.symm.subset
+          simp only [List.mem_map, List.mem_filter]
+          exact ⟨(i, nbox bb), ⟨hrow, by simp [hno, hins]⟩, rfl⟩
+  -- no duplicates
+  have hnd : L.Nodup := by
+    have n1 : ((t.rows.filter (fun r => inside 2 (nbox b) r.2)).map (·.1)).Nodup :=
+      (hkeys.sublist (List.Sublist.map _ List.filter_sublist))
+    have n2 : ((t.rows.filter (fun r => !outside 2 (nbox b) r.2 && !inside 2 (nbox b) r.2)).map (·.1)).Nodup :=
+      (hkeys.sublist (List.Sublist.map _ List.filter_sublist))
+    rw [hL, List.nodup_append]
+    refine ⟨hc.nodup_iff.mpr n1, (ho.nodup_iff.mpr n2).filter _, ?_⟩
+    intro x hx1 y hy2 hxy
+    subst hxy
+    have h1 := hc.subset hx1
+    have h2 := ho.subset (List.mem_of_mem_filter hy2)
+    simp only [List.mem_map, List.mem_filter] at h1 h2
+    obtain ⟨⟨i1, b1⟩, ⟨hr1, hi1⟩, e1⟩ := h1
+    obtain ⟨⟨i2, b2⟩, ⟨hr2, hi2⟩, e2⟩ := h2
+    simp only at e1 e2
+    subst e1
+    subst e2
+    have := key_unique hkeys hr1 hr2
+    subst this
+    simp [hi1] at hi2
+  -- both sides are sorted lists without duplicates over the same members
+  unfold cxFromTree
+  simp only
+  rw [cxMask_eq_filter]
+  have hsortedR : ((List.range els.length).filter ib).Pairwise (fun a b => decide (a ≤ b) = true) := by
+    have : (List.range els.length).Pairwise (· < ·) := List.pairwise_lt_range
+    exact (List.Pairwise.sublist List.filter_sublist this).imp (fun h => by simp; omega)
+  have hsortedL : (sortNat L).Pairwise (fun a b => decide (a ≤ b) = true) :=
+    (sortNat_sorted L).imp (fun h => by simpa using h)
+  have hperm : (sortNat L).Perm ((List.range els.length).filter ib) := by
+    refine (sortNat_perm L).trans ?_
+    rw [List.perm_ext_iff_of_nodup hnd (List.nodup_range.filter _)]
+    intro i
+    rw [hLmem]
+    simp [List.mem_filter]
+  exact List.Perm.eq_of_pairwise (le := fun a b => decide (a ≤ b))
+    (by intro a b _ _ h1 h2; simp only [decide_eq_true_eq] at h1 h2; omega) hsortedL hsortedR hperm
+
+/-- in particular for the tree `build_sindex` lays out, for every page size and every arrangement `sorted` of the valid rows -/
+theorem C04_index_irrelevant_built (ps : Nat) (hps : 1 ≤ ps) (sorted : List Row) (b : Box) (els : List (Option Elem))
+    (hs : sorted.Perm (validRows els)) (hx : b.x0 < b.x1) (hy : b.y0 < b.y1) :
+    cxFromTree (buildTree ps sorted) b els = cxMask b els :=
+  C04_index_irrelevant _ b els (by rw [buildTree_rows ps hps]; exact hs) hx hy
+
+/-! non-vacuity: a line array with a missing and an empty row, page size 2 -/
+example : cxIndexed 2 [] ⟨0, 0, 3, 4⟩ [some (.line [(0,0),(4,4)]), none, some (.line [(4,0),(4,1)]), some (.line []), some (.line [(1,3),(1,4)])] = [0, 4] := by
+  decide
+
 end SpVerif
